@@ -10,4 +10,4 @@ if [ -f "$COMMON" ] && [ "$COMMON" != "$TEST" ]; then EXTRA=",\"$REPO/$PKG/zz_ve
 cat > $W/ov.json <<J
 {"Replace":{"$REPO/$PKG/zz_verif_harness_test.go":"/verif/harness/zz_verif_harness_test.go","$REPO/$PKG/zz_verif_case_test.go":"$TEST"$EXTRA}}
 J
-cd $REPO && go test -overlay $W/ov.json -vet=off -count=1 -timeout 120s -run "^$NAME\$" -v ./$PKG/ 2>&1
+cd $REPO && go test -overlay $W/ov.json -vet=off -count=1 -timeout 900s -run "^$NAME\$" -v ./$PKG/ 2>&1
